@@ -226,6 +226,13 @@ func Run(r *fw.Run) {
 	for _, n := range zipx.SweepNames() {
 		lists = append(lists, []string{n}, []string{"N", n})
 	}
+	for _, n := range []int{9, 17, 63, 64, 65, 129, 600} {
+		var ps []string
+		for i := 0; i < n; i++ {
+			ps = append(ps, fmt.Sprintf("d%d/f%04d.go", i%5, i))
+		}
+		lists = append(lists, ps, append(append([]string{"go.mod"}, ps...), "vendor/p/x.go", "sub/go.mod", "sub/x.go"))
+	}
 	for i, a := range pool2 {
 		lists = append(lists, []string{a})
 		for j := i; j < len(pool2); j++ {
@@ -274,6 +281,9 @@ func Run(r *fw.Run) {
 		}
 		variants := [][]zipref.Mode{make([]zipref.Mode, len(paths))}
 		for pos := range paths {
+			if len(paths) > 4 && pos != 1 && pos != len(paths)-2 {
+				continue // long lists: a non-regular element near the start and near the end only
+			}
 			for _, m := range allModes {
 				v := make([]zipref.Mode, len(paths))
 				v[pos] = m
